@@ -46,6 +46,14 @@ CHECKS = {
          "Lean theorems over the effect model M-heap: no call changes the observables (core-list identity, element identities, version counters) of a pre-existing object unless it is a documented in-place call targeting that object; by induction over histories of any length an object keeps its observables whatever is later computed from it or its operands (history_stable, result_stable). "
          "Tie: systematic sweep over every walker operation and argument position (incl. optional initial guesses of DMRG/AMEn/solve/divide/cross) plus random histories re-using results and views; before/after each call ranks, shape, dtype, dense value, list identity, element identities and version counters of EVERY live object are compared; the observed write-sets are compared with the model's effect classes.",
          TB + "the assignment of each Python operation to an effect class is validated by observation on every call of the run, not proved; raw-constructor list sharing is an explicit hypothesis", "§5 C06"),
+ "C10": ("proof",
+         "Lean theorems: (L) the two-cursor merge/split loop of reshape, modelled on mode sizes, terminates and returns EXACTLY the requested mode sizes whenever the element counts agree (every ordered factorisation / merge, singleton modes anywhere), with at most len(target) SVD splits; permute's bubble sort ends in the requested order for every permutation, with swaps = inversions <= d(d-1)/2, and the per-swap allowances eps/d^1.5 add up to at most (sqrt(d)/2)*eps; (E) merging two neighbouring cores with row-major index arithmetic preserves the flattened tensor; absorbing size-1 cores preserves it (C08 lemma). "
+         "Tie: mode sizes and the number of SVD splits / swaps observed on the real reshape / permute are compared exactly with the model; rank decisions are replayed through M-trunc; the oracle checks requested shape and ||result - dense reshape/permute|| <= 10*eps*||x|| for every enumerated factorisation, all permutations of <= 4 (5) modes, QTT shapes, tensors and operators, real and complex.",
+         TB + "the eps bound of the whole pipeline needs the QR/SVD contracts and is checked by the oracle, not proved; operator branch of reshape and to_qtt/qtt_to_tens are covered by oracle only", "§5 C10"),
+ "C15": ("proof",
+         "Lean theorems: for every well-typed expression over {var, +, -, *, unary -, scalar *, scalar +, A@x} with a scalar head in {sum, dot, norm², entry, bilinear form, sums/products of those}, TT evaluation equals dense evaluation over ANY commutative ring; instantiated at dual numbers a+b·eps (carrier and operations are exactly the driver's) value AND derivative agree, i.e. every partial derivative w.r.t. every core entry of every operand equals the dense one (grad_eq_dense). "
+         "Tie: random programs of depth 1..3 (also with kron, cat, pad, mprod, partial sums, slicing inside) are differentiated by torch autograd through the real torchtt (grad.grad / grad_list / watch variants) and compared EXACTLY, entry by entry, with the model's dual-number evaluation and with an independent dense autograd graph.",
+         TB + "torch.autograd trusted; 'algebraic derivative = analytic derivative' for polynomial maps; expression-level theorem covers the shape-preserving fragment, shape-changing operations rely on their own value theorems (C03/C07/C08/C09) plus the exact correspondence", "§5 C15"),
  "C18": ("proof",
          "Lean theorems over the guard model: for +,-,* and @ between TT objects, whenever the operands have no dense counterpart (kind mismatch, non-broadcastable / unequal shapes) the guard returns an exception class and never `ok` (reject_complete), the documented class is the one returned (IncompatibleTypes / ShapeMismatch / InvalidArguments), @ accepts exactly the compatible pairs; the constructor's rejection logic is the M-shape theorem. "
          "Tie: malformed stream (~1100 cases: every entry point x incompatibility class x position) executed on the real code with the property as oracle (must raise; documented class where the docstring names one), guard/constructor outcomes compared with the model outcome-class by outcome-class; a control stream checks that compatible calls are not rejected.",
